@@ -331,7 +331,7 @@ where
             dealloc(get_tls_ptr().cast(), Layout::new::<ThreadLocalStorage>());
         }
     };
-    let (start_fn, fn_caller) = unsafe { onwed_split_fn_once(df) };
+    let (start_fn, fn_caller, fn_dropper) = unsafe { onwed_split_fn_once(df) };
     // We need to double box here because
     // 1. We need to access through a box, because we can't cast into a *mut dyn FnOnce(), because
     // fat pointer.
@@ -375,7 +375,7 @@ where
     #[cfg(feature = "verif-hooks")]
     crate::verif::gate(crate::verif::SPAWN_BEFORE_CLONE, tsm.0 as usize);
     #[expect(clippy::cast_possible_truncation)]
-    unsafe {
+    let clone_res = unsafe {
         __clone(
             start_fn,
             stack,
@@ -385,7 +385,21 @@ where
             tsm.get_futex().as_ptr() as usize,
             map_ptr,
             stack_sz,
-        );
+        )
+    };
+    if clone_res < 0 {
+        // No thread was created, nobody will ever signal the futex or clean up,
+        // release everything that was set up for it and report the failure
+        unsafe {
+            let _ = rusl::unistd::munmap(map_ptr, NonZeroUsize::new_unchecked(size));
+            drop(Box::from_raw(tls));
+            fn_dropper(fn_caller);
+            tsm.dealloc();
+        }
+        return Err(crate::error::Error::os(
+            "Failed to clone a new thread",
+            rusl::error::Errno::new(-clone_res),
+        ));
     }
     #[cfg(feature = "verif-hooks")]
     crate::verif::gate(crate::verif::SPAWN_AFTER_CLONE, tsm.0 as usize);
@@ -396,10 +410,15 @@ where
 }
 
 #[inline]
-unsafe fn onwed_split_fn_once<F: FnOnce()>(f: F) -> (usize, usize) {
+unsafe fn onwed_split_fn_once<F: FnOnce()>(f: F) -> (usize, usize, unsafe fn(usize)) {
     let t = start_fn::<F>;
     let d = Box::into_raw(Box::new(f));
-    (t as usize, d as usize)
+    (t as usize, d as usize, drop_fn_once::<F>)
+}
+
+/// Drops the boxed closure made by `onwed_split_fn_once` if it'll never be started
+unsafe fn drop_fn_once<F: FnOnce()>(ptr: usize) {
+    drop(Box::from_raw(ptr as *mut F));
 }
 
 #[repr(C)]
